@@ -577,6 +577,7 @@ def native_names():
                                   "ARC2", "Blowfish", "CAST", "ARC4", "Salsa20", "ChaCha20")]
     ae = ["aead/" + a for a in ("GCM", "GCM-noclmul", "OCB", "CCM", "EAX", "ChaCha20-Poly1305")]
     ec = ["ec/mul-" + c for c in ("p192", "p224", "p256", "p384", "p521", "ed25519", "ed448", "curve25519", "curve448")]
+    ec += ["ec/shared-operand-" + c for c in ("p256", "p521", "ed25519", "ed448", "curve25519", "curve448")]
     ec += ["ec/sign-p256", "ec/sign-ed25519", "ec/sign-ed448"]
     ms = ["math/modexp", "misc/strxor", "misc/scrypt", "misc/bcrypt", "misc/pkcs1", "misc/pbkdf2"]
     return hs + cs + ae + ec + ms
